@@ -28,9 +28,13 @@ PROPS = {
                 thorough=dict(runs=12000, budget_s=900, min_runs=600),
                 watchdog_s=180, spot=3),
     'C05': dict(engine='spg_sim',
-                quick=dict(runs=480, budget_s=100, min_runs=60),
-                thorough=dict(runs=8000, budget_s=900, min_runs=600),
+                quick=dict(runs=192, budget_s=150, min_runs=40),
+                thorough=dict(runs=4000, budget_s=1500, min_runs=400),
                 watchdog_s=240, spot=3),
+    'C07': dict(engine='adjoint_sim',
+                quick=dict(runs=640, budget_s=100, min_runs=60),
+                thorough=dict(runs=12000, budget_s=900, min_runs=600),
+                watchdog_s=180, spot=3),
 }
 
 
